@@ -459,7 +459,7 @@ theorem src_lstsq_assumption (ids : List Nat) (m : Nat) (X β : Mat) :
   rw [lifted_lstsq_untruncated, lstsqAssumed_none]
 
 /-- necessity of `lifted_lstsq_untruncated`: under an explicit cut-off the model's assumption is vacuous, and a `β` that
-    violates the normal equations (here β = 0 on a perfectly correlated pair of columns) is admitted -/
+    violates the normal equations (here β = 0 on a perfectly correlated pair of columns) passes -/
 theorem truncated_lstsq_assumes_nothing (q : Rat) :
     lstsqAssumed (some q) [[-1], [1]] [[-1], [1]] [[0]] 1 1 = true ∧
     lstsqAssumed none [[-1], [1]] [[-1], [1]] [[0]] 1 1 = false ∧
